@@ -31,7 +31,7 @@ MORE = {
  'C15': "(R15.5) the kernels receive the structure's own, unfiltered block pattern; (R15.8) the per-level pattern comes from the support search on every level. (R15.5) the dispatch on the level count is evaluated for L = 1..4; (R15.9) local row numbers refer to the list as passed by the caller.",
  'C16': "(R16.1) adjoint and transpose traverse the operands in the same order; (R16.4) accumulators are not narrowed to the first operand's dtype; (R16.5) a cyclic axis move is not replaced by an exchange. (R16.3) the flag that admits the square-only Kronecker routine is computed factor by factor; a `continue` of a block-row scan is not a `break` (R16.0).",
  'C17': "(R17.1) the corrective branch covers info > 0; (R17.7) load vector and integral use one tensor Gauss rule with the common node count. (R17.8) f_physical -- not the presence of a geometry -- selects the evaluation at mapped points; project_L2 takes the Kronecker shortcut only without geometry; (R17.G/G13) a slice bounded by the negated degree needs the degree-0 case.",
- 'C18': "(R18.2) tensor.asarray(X) aliases X. (R18.7 = R16.5) mode products put the new axis back by a cyclic move; (R18.8) negation negates exactly one factor of each product. (R18.9) every Kronecker term is a tuple where methods concatenate tuples (constructor normalises or all construction sites pass tuples).",
+ 'C18': "(R18.2) tensor.asarray(X) aliases X. (R18.7 = R16.5) mode products put the new axis back by a cyclic move; (R18.8) negation negates exactly one factor of each product. (R18.9) every Kronecker term is a tuple where methods concatenate tuples (constructor normalises or all construction sites pass tuples). (R18.10) a multi-index kept in a list subscripts arrays as a tuple.",
  'C19': "(R19.1) the end knots are exact copies of a and b; (R19.3) the vectorised span search is stateless; (R19.5) knot differences come from the knot array. (R19.7) make_knots uses its parameters as passed (no clamp).",
  'C20': "(R20.5) the rebuild is reached for every ImportError; (R20.6) a process removes only its own scratch directory and creates nothing importable under the cache directory before publication. (R20.5) every creation of a shared directory tolerates a concurrent creator (exist_ok / caught FileExistsError), a preceding exists() test does not count.",
 }
